@@ -26,6 +26,8 @@ def flag_names(e, resolve=None):
         init = resolve(e)
         if init is not None:
             return flag_names(init, resolve)
+    if k == "Path" and e.get("res") == "local" and "let_init" in e:
+        return flag_names(e["let_init"], resolve)      # a flag set hoisted into an immutable `let`
     if k == "Path" and e.get("res") == "def":
         return {e["path"].split("::")[-1]}
     if k == "Binary" and e.get("op") in ("BitOr",):
